@@ -193,6 +193,7 @@ func (s *Service) prune(ctx context.Context) {
 		}
 
 		failedSet := make(map[uint64]struct{})
+		prevLastPruned := lastPrunedHeader.Height()
 
 		log.Debugw("pruning block data", "from", headers[0].Height(), "to",
 			headers[len(headers)-1].Height())
@@ -218,6 +219,11 @@ func (s *Service) prune(ctx context.Context) {
 
 		if len(headers) < maxHeadersPerLoop {
 			// we've pruned all the blocks we can
+			return
+		}
+		// a full batch in which nothing could be pruned would be found again, over and over, for as
+		// long as the failure lasts; leave it to the retries of the next cycles instead
+		if lastPrunedHeader.Height() == prevLastPruned {
 			return
 		}
 	}
